@@ -59,6 +59,9 @@ def check(prop, tier, seed):
                 hs.append(dict(id=j + 1, dir="in", ty=rnd.choice(["ALL", "1", "D", "5", "A"]), accept=rnd.random() < 0.7, when="post", mutate=False))
         relog.append(dict(handlers=hs, saveFailAt=0, relogon=True))
     confs += relog
+    # several messages in one call, one of the saves failing (the first, a middle one, the last, none)
+    for k in (0, 1, 2, 3, 5):
+        confs.append(dict(handlers=[], saveFailAt=k, batch=True))
     scns = []
     for i, c in enumerate(confs):
         steps = [dict(a="send", ty="V"), dict(a="recv", ty="1"), dict(a="send", ty="V"), dict(a="recv", ty="D"),
@@ -77,6 +80,8 @@ def check(prop, tier, seed):
                      dict(a="send", ty="V"), dict(a="recv", ty="1"), dict(a="recv", ty="D"), dict(a="recv", ty="0"), dict(a="send", ty="V"),
                      dict(a="recv", ty="d"), dict(a="recv", ty="v"), dict(a="recv", ty="D")]
             late_at = 4
+        if c.get("batch"):
+            steps = [dict(a="batch", ty="V"), dict(a="send", ty="V"), dict(a="batch", ty="V"), dict(a="recv", ty="1")]
         if c.get("relogon"):
             steps = [dict(a="send", ty="V"), dict(a="recv", ty="1"), dict(a="recv", ty="5"), dict(a="recv", ty="A"), dict(a="send", ty="V"),
                      dict(a="recv", ty="1"), dict(a="recv", ty="D"), dict(a="send", ty="V"), dict(a="recv", ty="2"), dict(a="recv", ty="5"), dict(a="recv", ty="A"),
